@@ -4,6 +4,9 @@
   input  := (n (raft entry) sched [route]) entry := - | (raw idx)
   route  := (svc k)                        which local.Service object caller c goes through (c mod k);
                                            the model is blind to it: every caller runs the protocol itself
+          | (rpc k)                        caller c goes through the gRPC hop of remote apricot c mod k: the
+                                           protocol call is the same, its answer crosses `viaHop codeHop`
+                                           (Model/RunRemote.lean: an error comes back as (0, that error))
   sched  := ((r c) | (w c) | (e c) | (f raw) | (d) | (x c))*
   obs    := (calls store)
   calls  := ((c status start end reqs) …)  for c = 0..n-1
@@ -24,6 +27,7 @@
 import ControlModel.Basic
 import ControlModel.Model.RunNumber
 import ControlModel.Model.RunAttempts
+import ControlModel.Model.RunRemote
 import ControlModel.Spec.C07
 import Driver.EnvCommon
 
@@ -57,14 +61,20 @@ def optNat : Option Nat → SExp
 
 def getReq : SExp := .list [.atom "get", .atom "1"]
 
-def callSx (c : Nat) : CState → SExp
+/-- `hop` = the caller sits behind a gRPC hop: its STATUS is what came back through the hop; the
+    requests are what Consul processed for the call (recorded on the far side of the hop). -/
+def callSx (c : Nat) (hop : Option Hop := none) : CState → SExp
   | .idle => .list [.ofNat c, .atom "idle", .atom "-", .atom "-", .list []]
   | .holding _ _ t => .list [.ofNat c, .atom "pending", .ofNat t, .atom "-", .list [getReq]]
   | .dead t => .list [.ofNat c, .atom "dead", optNat t, .atom "-", .list (if t.isSome then [getReq] else [])]
   | .done v e t t' q =>
-    let status := match e with
-      | .ok => SExp.list [.atom "ok", .ofNat v]
-      | e => SExp.list [.atom "err", .atom (errName e), .ofNat v]
+    let seen : CState := match hop with
+      | none => .done v e t t' q
+      | some h => viaHop h (.done v e t t' q)
+    let status := match seen with
+      | .done v' .ok _ _ _ => SExp.list [.atom "ok", .ofNat v']
+      | .done v' e' _ _ _ => SExp.list [.atom "err", .atom (errName e'), .ofNat v']
+      | _ => SExp.atom "?"
     let reqs := match q with
       | none => [getReq]
       | some i =>
@@ -77,8 +87,8 @@ def storeSx (st : Store) : SExp :=
     | none => .atom "-"
     | some e => .list [.atom (String.ofList e.raw), .ofNat e.idx]]
 
-def obsSx (n : Nat) (s : Sys) : SExp :=
-  .list [.list ((List.range n).map fun c => callSx c (s.callers c)), storeSx s.store]
+def obsSx (n : Nat) (s : Sys) (hop : Option Hop := none) : SExp :=
+  .list [.list ((List.range n).map fun c => callSx c hop (s.callers c)), storeSx s.store]
 
 /-- Read the implementation's observation back as `CallObs`. -/
 def parseCall : SExp → Option CallObs
@@ -145,7 +155,13 @@ def processEnv (inp impl : String) : String :=
 def routeOk : List SExp → Bool
   | [] => true
   | [.list [.atom "svc", k]] => match k.nat? with | some k => 1 ≤ k && k ≤ 4 | none => false
+  | [.list [.atom "rpc", k]] => match k.nat? with | some k => 1 ≤ k && k ≤ 4 | none => false
   | _ => false
+
+/-- Every caller of an `(rpc k)` case sits behind the hop as the code has it. -/
+def routeHop : List SExp → Option Hop
+  | [.list [.atom "rpc", _]] => some codeHop
+  | _ => none
 
 def processLine (line : String) : String :=
   match SExp.fields line with
@@ -158,7 +174,7 @@ def processLine (line : String) : String :=
         if !(decide st.WF) || !routeOk route then "BADINPUT\t0\t-" else
         let p := codeProto
         let s := run p sched (init st)
-        let model := obsSx n s
+        let model := obsSx n s (routeHop route)
         let fm := ForeignMonotone p sched (init st)
         let nw := NoWrap p sched (init st)
         let calls : Option (List CallObs) := do
